@@ -157,7 +157,7 @@ func c07Call(c *ctx, fn string, S int, box [4]int, paths [][][2]int, open int, r
 	e.Out = q
 	e.PSt = c07Prev.check(res)
 	e.Dense = 1
-	if fn == "LineString" && len(paths[0]) >= 2 && len(paths[0]) <= 13 && c.rng.Intn(8) == 0 {
+	if fn == "LineString" && len(paths[0]) >= 2 && len(paths[0]) <= 13 && c.rng.Intn(c.pick(8, 32)) == 0 {
 		// (only for figures whose own coordinates are exact in binary - whole and half units: on the grid of tenths a
 		// vertex "on" a slanted line is not on it in floating point, and whether the line touches a corner is not decided)
 		exact := true
